@@ -154,9 +154,11 @@ def signer_spec(kinds=None, kl=None):
         'ecdsa': st.fixed_dictionaries({'kind': st.just('ecdsa'), 'kl': kl, 'key': st.sampled_from(EC_KEYS),
                                         'drbg': st.integers(0, 2 ** 32)}),
         'ed25519': st.fixed_dictionaries({'kind': st.just('ed25519'), 'kl': kl, 'key': st.sampled_from(ED_KEYS)}),
-        'synthetic': st.integers(0, 252).flatmap(lambda R: st.fixed_dictionaries({
+        'synthetic': st.one_of(st.integers(0, 252), st.integers(0, 252),
+                               st.sampled_from([253, 254, 255, 256, 257, 258, 300, 384, 512, 1000])).flatmap(lambda R: st.fixed_dictionaries({
             'kind': st.just('synthetic'), 'R': st.just(R),
-            'r': st.one_of(st.just(R), st.just(0), st.integers(0, R), st.integers(max(0, R - 3), R)),
+            # (the library refuses, with an explicit error, to shrink a reserved SignatureValue of 253 octets or more)
+            'r': st.one_of(st.just(R), st.just(0), st.integers(0, R), st.integers(max(0, R - 3), R)) if R < 253 else st.just(R),
             'kl': st.one_of(st.none(), kl), 'fill': st.integers(0, 255)})),
     }
     kinds = kinds or list(opts)
